@@ -2,6 +2,9 @@
 mod c01;
 mod c02;
 mod c03;
+mod c11;
+mod c12;
+mod c14;
 mod cfgs;
 mod ph;
 mod vmarket;
@@ -27,7 +30,10 @@ fn main() {
         "C01" => c01::run(&cli),
         "C02" => c02::run(&cli),
         "C03" => c03::run(&cli),
-        "C04" | "C05" | "C06" | "C07" | "C08" | "C09" | "C10" | "C12" | "C13" => ph::run(&cli),
+        "C04" | "C05" | "C06" | "C07" | "C08" | "C09" | "C10" | "C13" => ph::run(&cli),
+        "C11" => c11::run(&cli),
+        "C12" => c12::run(&cli),
+        "C14" => c14::run(&cli),
         other => {
             eprintln!("unknown property {other}");
             std::process::exit(2)
